@@ -429,7 +429,10 @@ func (in *inst) Check(x *explore.Exec) (string, string) {
 					id = strconv.Itoa(10 + n)
 				}
 				o := get(id)
-				if o.active && !o.terminated {
+				// (once the connection is closed nothing is streamed any more: a start that was
+				// already buffered may still be executed and is cancelled at once; two streams
+				// under one id need an open connection)
+				if o.active && !o.terminated && !closed {
 					return "ws:start-with-active-id-accepted", fmt.Sprintf("operation id %s was started again while its previous instance was still running\n  %s", id, all)
 				}
 				*o = opState{instances: o.instances + 1, active: true}
